@@ -62,6 +62,7 @@ func init() {
 	c20assoc(p, seq.ETString, seq.ETAny, 1500, 25000)
 	c20assoc(p, seq.ETAny, seq.ETAny, 1500, 25000)
 	c20assoc(p, seq.ETBool, seq.ETBool, 500, 8000)
+	p.Engines = append(p.Engines, &core.Engine{Name: "source/foreign-literal", Count: core.FixedCount(3000, 50000), Run: func(c *core.Ctx, idx int) { seq.RunC20ForeignLiteral(c) }})
 	p.Engines = append(p.Engines, &core.Engine{Name: "Set/collator", Count: core.FixedCount(3000, 50000), Run: func(c *core.Ctx, idx int) { seq.RunC20SetCollator(c) }})
 	core.Register(p)
 }
